@@ -75,6 +75,35 @@ def classify(arg):
     return "?" + t[:60]
 
 
+def hash_and_sign_rule(ctx, w, rule):
+    dexa = D.Dex(w.lookup, adt_discr=w.adt_discr, effects=lambda n: True, models=CLONE, unroll=2, inline=U.sig_inline)
+    # ---- hash_and_sign_event --------------------------------------------------------------------
+    ctx.rule(rule, "hash_and_sign_event: content_hash(object) -> hashes.sha256 = its unpadded base64 -> redact a copy (taken after the "
+                                  "hash is stored) -> sign_json(redacted) -> signatures copied back from the redacted copy")
+    f = w.fn(f"{FN}::hash_and_sign_event")
+    paths = dexa.paths(f, [D.sym("entity"), D.sym("kp"), D.sym("object"), D.sym("rr")])
+    okp = [p for p in paths if p.kind == "ret" and U.is_ok(p.ret)]
+    ctx.floor("hash_and_sign success paths", len(okp), 1)
+    for p in okp:
+        names = [e[0].rsplit("::", 1)[-1] for e in p.effects]
+        def idx(pred):
+            for i, e in enumerate(p.effects):
+                if pred(e):
+                    return i
+            return -1
+        i_hash = idx(lambda e: e[0] == f"{FN}::content_hash" and U.shows(e[1]) == ["object"])
+        i_store = idx(lambda e: e[0].endswith("::insert") and len(e[1]) == 3 and e[1][1] == D.C("sha256") and
+                      "'hashes'" in D.show(e[1][0]) and D.show(e[1][2]) == "CanonicalJsonValue::String(Base64::encode(functions::content_hash(object).Ok.0))")
+        i_clone = idx(lambda e: e[0] == "clone")
+        i_red = idx(lambda e: e[0].endswith("canonical_json::redact") and U.shows(e[1]) == ["clone(object)", "rr", "Option::None"])
+        i_sign = idx(lambda e: e[0] == f"{FN}::sign_json" and U.shows(e[1]) == ["entity", "kp", "canonical_json::redact(clone(object), rr, Option::None).Ok.0"])
+        i_back = idx(lambda e: e[0].endswith("::insert") and len(e[1]) == 3 and D.show(e[1][0]) == "object" and e[1][1] == D.C("signatures") and
+                     "get_mut(canonical_json::redact(clone(object), rr, Option::None).Ok.0, 'signatures')" in D.show(e[1][2]))
+        order = [i_hash, i_store, i_clone, i_red, i_sign, i_back]
+        ctx.check(all(i >= 0 for i in order) and order == sorted(order), rule, f"{rule}:order", w.where(f),
+                  bad_msg=f"pipeline steps [hash, store, copy, redact, sign, copy-back] occur at {order} in {names}")
+
+
 def run(ctx):
     fx = ctx.facts("A")
     w = W.World(fx, ["ruma_common", "ruma_signatures"])
@@ -184,31 +213,7 @@ def run(ctx):
     bad = [p for p in okp if any(v == "Err" and "verify_canonical_json_for_entity" in s for s, v in U.true_variants(p).items())]
     ctx.check(not bad, "C03.verify", "C03.verify:no-ignored-failure", w.where(f), bad_msg="a failed signature verification does not fail verify_event")
 
-    # ---- hash_and_sign_event --------------------------------------------------------------------
-    ctx.rule("C03.hash_and_sign", "hash_and_sign_event: content_hash(object) -> hashes.sha256 = its unpadded base64 -> redact a copy (taken after the "
-                                  "hash is stored) -> sign_json(redacted) -> signatures copied back from the redacted copy")
-    f = w.fn(f"{FN}::hash_and_sign_event")
-    paths = dexa.paths(f, [D.sym("entity"), D.sym("kp"), D.sym("object"), D.sym("rr")])
-    okp = [p for p in paths if p.kind == "ret" and U.is_ok(p.ret)]
-    ctx.floor("hash_and_sign success paths", len(okp), 1)
-    for p in okp:
-        names = [e[0].rsplit("::", 1)[-1] for e in p.effects]
-        def idx(pred):
-            for i, e in enumerate(p.effects):
-                if pred(e):
-                    return i
-            return -1
-        i_hash = idx(lambda e: e[0] == f"{FN}::content_hash" and U.shows(e[1]) == ["object"])
-        i_store = idx(lambda e: e[0].endswith("::insert") and len(e[1]) == 3 and e[1][1] == D.C("sha256") and
-                      "'hashes'" in D.show(e[1][0]) and D.show(e[1][2]) == "CanonicalJsonValue::String(Base64::encode(functions::content_hash(object).Ok.0))")
-        i_clone = idx(lambda e: e[0] == "clone")
-        i_red = idx(lambda e: e[0].endswith("canonical_json::redact") and U.shows(e[1]) == ["clone(object)", "rr", "Option::None"])
-        i_sign = idx(lambda e: e[0] == f"{FN}::sign_json" and U.shows(e[1]) == ["entity", "kp", "canonical_json::redact(clone(object), rr, Option::None).Ok.0"])
-        i_back = idx(lambda e: e[0].endswith("::insert") and len(e[1]) == 3 and D.show(e[1][0]) == "object" and e[1][1] == D.C("signatures") and
-                     "get_mut(canonical_json::redact(clone(object), rr, Option::None).Ok.0, 'signatures')" in D.show(e[1][2]))
-        order = [i_hash, i_store, i_clone, i_red, i_sign, i_back]
-        ctx.check(all(i >= 0 for i in order) and order == sorted(order), "C03.hash_and_sign", "C03.hash_and_sign:order", w.where(f),
-                  bad_msg=f"pipeline steps [hash, store, copy, redact, sign, copy-back] occur at {order} in {names}")
+    hash_and_sign_rule(ctx, w, "C03.hash_and_sign")
     # C03 relies on redaction being the specification's and idempotent (the signed / reference-hashed form is the redacted event, and
     # verification redacts again): the redaction rules of C04 are part of this check
     from . import C04 as _C04
